@@ -222,7 +222,8 @@ def lexLoop (eol : Bool) : Nat → Bytes → Bool → List Tok → L (List Tok)
               else ill "XMLDecl without version"
             | .ok _ => ill "XMLDecl"
             | .error e => .error e
-          else ill "XML declaration not at the start / reserved PI target"
+          else if target == [120, 109, 108] then ill "XML declaration not at the start"
+          else ill "reserved PI target"
         else lexLoop eol fuel rest false (.pi :: acc)
     | 60 :: 47 :: r =>                                               -- </
       match r.span (· ≠ 62) with
